@@ -454,5 +454,71 @@ def font_kind(font, gn):
         return "glyf"
 
 
+class ImportedObjectModel(Unit):
+    """A font object read from TTX (not from binary) is drawn like its saved and reloaded self."""
+
+    name = "imported-object-model"
+    rule = ("every corpus TTX file that is a complete variable font (fvar + gvar or CFF2): the object model produced by importXML is drawn through its glyph set at every location of the lattice "
+            "and compared, glyph by glyph (outline and width), with the glyph set of the same font after save and reload (which the main unit compares with HarfBuzz); distinct = (file, location)")
+    chunk = 1
+    required_witnesses = ("CFF2 object model", "gvar object model")
+
+    def setup(self, tier, seed):
+        load_fonts()
+        self.files = []
+        for key in sorted(_FONTS):
+            if not key.startswith("ttx:"):
+                continue
+            data, _i = _FONTS[key]
+            f = TTFont(io.BytesIO(data), lazy=True)
+            if "fvar" in f and ("gvar" in f or "CFF2" in f) and len(data) < 60000:
+                self.files.append(key)
+
+    def cases(self, tier, seed):
+        for key in self.files:
+            yield [key]
+
+    def check(self, case, rec):
+        import os
+
+        key = case[0]
+        path = os.path.join(corpus.TESTS, key[4:])
+        obj = TTFont()
+        obj.importXML(path)
+        data, _i = _FONTS[key]
+        ref = TTFont(io.BytesIO(data))
+        rec.witness("CFF2 object model" if "CFF2" in ref else "gvar object model")
+        order = ref.getGlyphOrder()
+        for loc in locations(ref, "quick"):
+            if not loc:
+                continue
+            try:
+                gs_a, gs_b = obj.getGlyphSet(location=loc), ref.getGlyphSet(location=loc)
+            except Exception as e:
+                rec.violation("object-model:glyphset:%s" % type(e).__name__, "%s at %r: %s" % (key, loc, e))
+                return
+            rec.nontrivial([key, sorted(loc.items())])
+            for gn in order:
+                pa, pb = geom.SegPen(gs_a), geom.SegPen(gs_b)
+                try:
+                    gs_a[gn].draw(pa)
+                    pa._flush(False)
+                    gs_b[gn].draw(pb)
+                    pb._flush(False)
+                except Exception as e:
+                    if any(pat in key and gn == g for pat, g in EXCLUDE_GLYPHS):
+                        continue
+                    rec.violation("object-model:draw:%s" % type(e).__name__, "%s glyph %r at %r: %s" % (key, gn, loc, e))
+                    break
+                msg = geom.contours_close(geom.canon_contours(pa.contours), geom.canon_contours(pb.contours), 0.01)
+                if msg:
+                    rec.violation("object-model:outline:" + font_kind(ref, gn), "%s glyph %r at %r: the font read from TTX draws differently from its saved and reloaded self: %s" % (key, gn, loc, msg))
+                    break
+                if abs(gs_a[gn].width - gs_b[gn].width) > 1e-6:
+                    rec.violation("object-model:width:" + font_kind(ref, gn), "%s glyph %r at %r: width %r vs %r" % (key, gn, loc, gs_a[gn].width, gs_b[gn].width))
+                    break
+                rec.evals(1)
+
+
 def units():
-    return [Outlines()]
+    return [Outlines(), ImportedObjectModel()]
